@@ -1,4 +1,336 @@
-import OtelVerif.Model.C06
-/-! C06 property theorems (stub) -/
+import OtelVerif.Lemmas.C06
+/-!
+# C06 — fan-out never lets one consumer's mutation reach another consumer
+
+All statements quantify over **every** capability vector `caps` (any number and ordering of
+consumers), read-only or mutable input, every content `c0`, and every behaviour of the consumers:
+`syncW` (what a consumer writes while it is being called) and `ws` (what is written afterwards,
+asynchronously) are arbitrary unless a hypothesis says otherwise.
+-/
 namespace OtelVerif.C06
+
+def isMut (caps : List Bool) (c : Nat) : Prop := caps[c]? = some true
+def isRO (caps : List Bool) (c : Nat) : Prop := caps[c]? = some false
+
+/-- every consumer is invoked exactly once — whatever earlier ones returned (the loop has no early
+exit: `errorsOf` is computed from the same, complete call list) -/
+theorem C06_all_called (caps : List Bool) (inputRO : Bool) :
+    ((deliveries caps inputRO).map (·.consumer)).Perm (List.range caps.length) := by
+  simp only [deliveries, List.map_append, mutDeliveries_consumers, roDeliveries, List.map_map]
+  have : (List.map ((fun x => x.consumer) ∘ fun c => ({ consumer := c, obj := Obj.orig } : Delivery)) (readonlyIdx caps)) = readonlyIdx caps := by
+    simp [Function.comp_def]
+  rw [this, List.range_eq_range']
+  exact idxWhere_perm caps 0
+
+/-- the returned error aggregates all failures: it is empty iff no consumer failed, and contains
+every failing consumer -/
+theorem C06_errors_aggregate (caps : List Bool) (inputRO : Bool) (fails : Nat → Bool) (c : Nat) (hc : c < caps.length) :
+    c ∈ errorsOf (deliveries caps inputRO) fails ↔ fails c = true := by
+  have hp := C06_all_called caps inputRO
+  simp only [errorsOf, List.mem_filter]
+  constructor
+  · exact fun h => h.2
+  · intro h; exact ⟨hp.mem_iff.2 (List.mem_range.2 hc), h⟩
+
+/-- content delivered to each consumer equals the content sent — **for any behaviour of the
+consumers during their calls**, declared or not -/
+theorem C06_equal_at_call (caps : List Bool) (inputRO : Bool) (c0 : Nat) (syncW : Nat → Option Nat) :
+    ∀ s ∈ (runFan caps inputRO c0 syncW).2, s.atCall = some c0 := by
+  intro s hs
+  simp only [runFan, List.mem_append] at hs
+  have hA := heapA_spec caps inputRO c0 syncW
+  rcases hs with hs | hs
+  · exact hA.1 s hs
+  · -- read-only phase: the original is untouched so far unless there is no read-only consumer
+    cases hr : readonlyIdx caps with
+    | nil => rw [hr] at hs; simp [roDeliveries, callAll] at hs
+    | cons c rest =>
+      have hL : lastGetsOrig caps inputRO = false := by simp [lastGetsOrig, hr]
+      have horig := hA.2.2 hL
+      cases rest with
+      | nil =>
+        rw [hr] at hs
+        have := phaseB_single syncW c _ s hs
+        rw [this, markRO_orig, horig]
+      | cons c' rest' =>
+        have hro : (markRO (marksRO caps inputRO) (heapA caps inputRO c0 syncW).1).origRO = true := by
+          rw [marked_origRO, hr]; simp
+        have := ((phaseB_ro syncW (readonlyIdx caps) _ hro).2 s hs).1
+        rw [this, markRO_orig, horig]
+
+/-- each mutating consumer works on an object nobody else is handed; and the original is handed to
+a mutating consumer only if it was not read-only -/
+theorem C06_exclusive (caps : List Bool) (inputRO : Bool) :
+    (deliveries caps inputRO).Pairwise
+      (fun a b => (isMut caps a.consumer ∨ isMut caps b.consumer) → a.obj ≠ b.obj) ∧
+    (∀ d ∈ deliveries caps inputRO, isMut caps d.consumer → d.obj = .orig → inputRO = false) := by
+  constructor
+  · simp only [deliveries, List.pairwise_append]
+    have hpm : (mutDeliveries (lastGetsOrig caps inputRO) (mutableIdx caps) 0).Pairwise
+        (fun a b => (isMut caps a.consumer ∨ isMut caps b.consumer) → a.obj ≠ b.obj) := by
+      have := mutDeliveries_pairwise (lastGetsOrig caps inputRO) (mutableIdx caps) 0
+      exact List.Pairwise.imp (S := fun (a b : Delivery) => (isMut caps a.consumer ∨ isMut caps b.consumer) → a.obj ≠ b.obj) (fun h _ => h) this
+    refine ⟨hpm, ?_, ?_⟩
+    · -- two read-only consumers: the premise is false
+      simp only [roDeliveries, List.pairwise_map]
+      refine List.Pairwise.imp_of_mem ?_ (List.pairwise_of_forall (R := fun _ _ => True) (fun _ _ => trivial))
+      intro a b ha hb _ hab
+      have h1 := (mem_readonlyIdx caps a).1 ha
+      have h2 := (mem_readonlyIdx caps b).1 hb
+      rcases hab with h | h <;> simp [isMut, h1, h2] at h
+    · intro a ha b hb _
+      simp only [roDeliveries, List.mem_map] at hb
+      obtain ⟨c, hc, rfl⟩ := hb
+      rcases mutDeliveries_obj _ _ _ a ha with ⟨_, hL⟩ | ⟨j, hj, _⟩
+      · simp only [lastGetsOrig, Bool.and_eq_true, List.isEmpty_iff] at hL
+        rw [hL.1] at hc; simp at hc
+      · simp [hj]
+  · intro d hd hm ho
+    simp only [deliveries, List.mem_append] at hd
+    rcases hd with hd | hd
+    · rcases mutDeliveries_obj _ _ _ d hd with ⟨_, hL⟩ | ⟨j, hj, _⟩
+      · simp only [lastGetsOrig, Bool.and_eq_true, Bool.not_eq_true'] at hL; exact hL.2
+      · rw [hj] at ho; cases ho
+    · simp only [roDeliveries, List.mem_map] at hd
+      obtain ⟨c, hc, rfl⟩ := hd
+      have := (mem_readonlyIdx caps c).1 hc
+      simp [isMut, this] at hm
+
+/-- a consumer that does not declare mutation is handed the original … -/
+theorem C06_readonly_gets_orig (caps : List Bool) (inputRO : Bool) (c : Nat) (hc : isRO caps c) :
+    objOf (deliveries caps inputRO) c = some .orig := by
+  have hr : c ∈ readonlyIdx caps := (mem_readonlyIdx caps c).2 hc
+  have hL : lastGetsOrig caps inputRO = false := by
+    cases h : readonlyIdx caps with
+    | nil => rw [h] at hr; simp at hr
+    | cons a b => simp [lastGetsOrig, h]
+  rcases objOf_append_clone_or_ro (mutDeliveries false (mutableIdx caps) 0) (readonlyIdx caps) c
+      (mutDeliveries_false_clone _ _) with h | ⟨j, hj⟩ | ⟨h, _⟩
+  · -- not found: impossible, c is among the read-only deliveries
+    exfalso
+    simp only [objOf, Option.map_eq_none_iff, List.find?_eq_none, List.mem_append, decide_eq_true_eq] at h
+    exact h ⟨c, .orig⟩ (Or.inr (by simp [roDeliveries, hr])) rfl
+  · -- found among the mutable deliveries: impossible, c is not mutating
+    exfalso
+    simp only [objOf, Option.map_eq_some_iff] at hj
+    obtain ⟨d, hd, _⟩ := hj
+    rw [List.find?_append] at hd
+    cases hf : (mutDeliveries false (mutableIdx caps) 0).find? (fun d => decide (d.consumer = c)) with
+    | none =>
+      rw [hf] at hd
+      simp only [Option.none_or] at hd
+      have hmem := List.mem_of_find?_eq_some hd
+      simp only [roDeliveries, List.mem_map] at hmem
+      obtain ⟨c', _, rfl⟩ := hmem
+      simp_all
+    | some d' =>
+      have hmem := List.mem_of_find?_eq_some hf
+      have hp := List.find?_some hf
+      simp only [decide_eq_true_eq] at hp
+      have hcm : d'.consumer ∈ (mutDeliveries false (mutableIdx caps) 0).map (·.consumer) := List.mem_map_of_mem hmem
+      rw [mutDeliveries_consumers, hp, mem_mutableIdx] at hcm
+      simp [isRO] at hc
+      rw [hc] at hcm; cases hcm
+  · simpa [deliveries, hL] using h
+
+/-- … and **never observes a change made by any other consumer**, during the calls or at any later
+time: for every behaviour `syncW`/`ws` of all the *other* consumers (declared mutators or not), the
+object a non-mutating consumer `c` holds still has the content that was sent.  (Only `c` itself is
+assumed not to write.) -/
+theorem C06_noninterference (caps : List Bool) (inputRO : Bool) (c0 : Nat) (syncW : Nat → Option Nat)
+    (ws : List (Nat × Nat)) (c : Nat) (hc : isRO caps c)
+    (hself : syncW c = none) (hws : ∀ p ∈ ws, p.1 ≠ c) :
+    (asyncWrites (deliveries caps inputRO) (runFan caps inputRO c0 syncW).1 ws).read .orig = some c0 := by
+  have hr : c ∈ readonlyIdx caps := (mem_readonlyIdx caps c).2 hc
+  have hL : lastGetsOrig caps inputRO = false := by
+    cases h : readonlyIdx caps with
+    | nil => rw [h] at hr; simp at hr
+    | cons a b => simp [lastGetsOrig, h]
+  have hA := heapA_spec caps inputRO c0 syncW
+  have hAo := hA.2.2 hL
+  simp only [Heap.read, Option.some.injEq]
+  have hds : deliveries caps inputRO = mutDeliveries false (mutableIdx caps) 0 ++ roDeliveries (readonlyIdx caps) := by
+    simp [deliveries, hL]
+  rw [hds]
+  simp only [runFan]
+  by_cases hshared : inputRO = true ∨ (readonlyIdx caps).length > 1
+  · -- the original is read-only while the non-mutating consumers run and ever after
+    have hro2 : (markRO (marksRO caps inputRO) (heapA caps inputRO c0 syncW).1).origRO = true := by
+      rw [marked_origRO]; rcases hshared with h | h <;> simp [h]
+    rw [(phaseB_ro syncW (readonlyIdx caps) _ hro2).1]
+    rw [asyncWrites_orig _ _ c _ ws (mutDeliveries_false_clone _ _) hws (Or.inl hro2), markRO_orig, hAo]
+  · -- `c` is the only non-mutating consumer and the input is mutable
+    have hlen : (readonlyIdx caps).length ≤ 1 := by
+      have : ¬ (readonlyIdx caps).length > 1 := fun h => hshared (Or.inr h)
+      omega
+    have honly : ∀ c' ∈ readonlyIdx caps, c' = c := by
+      intro c' hc'
+      cases hl : readonlyIdx caps with
+      | nil => rw [hl] at hc'; simp at hc'
+      | cons a rest =>
+        rw [hl] at hc' hr hlen
+        cases rest with
+        | nil => simp at hc' hr; rw [hc', hr]
+        | cons b rest' => simp at hlen
+    have hsil : ∀ c' ∈ readonlyIdx caps, syncW c' = none := by
+      intro c' hc'; rw [honly c' hc']; exact hself
+    rw [phaseB_silent syncW _ _ hsil]
+    rw [asyncWrites_orig _ _ c _ ws (mutDeliveries_false_clone _ _) hws (Or.inr honly), markRO_orig, hAo]
+
+/-- data shared by several non-mutating consumers is marked read-only (every one of them sees
+`IsReadOnly() = true`), so an undeclared mutation panics and changes nothing -/
+theorem C06_ro_marked (caps : List Bool) (inputRO : Bool) (c0 : Nat) (syncW : Nat → Option Nat)
+    (hmany : (readonlyIdx caps).length > 1) :
+    (runFan caps inputRO c0 syncW).1.origRO = true ∧
+    (∀ s ∈ (runFan caps inputRO c0 syncW).2, isRO caps s.consumer → s.ro = true) ∧
+    (∀ v, (runFan caps inputRO c0 syncW).1.write .orig v = ((runFan caps inputRO c0 syncW).1, true)) := by
+  have hro2 : (markRO (marksRO caps inputRO) (heapA caps inputRO c0 syncW).1).origRO = true := by
+    rw [marked_origRO]; simp [hmany]
+  have hB := phaseB_ro syncW (readonlyIdx caps) _ hro2
+  have hfin : (runFan caps inputRO c0 syncW).1.origRO = true := by
+    simp only [runFan]; rw [hB.1]; exact hro2
+  refine ⟨hfin, ?_, fun v => write_ro_noop _ v hfin⟩
+  intro s hs hsro
+  simp only [runFan, List.mem_append] at hs
+  rcases hs with hs | hs
+  · -- a seen record of the mutable phase belongs to a mutating consumer
+    exfalso
+    have := callAll_consumers syncW _ _ s hs
+    rw [mutDeliveries_consumers, mem_mutableIdx] at this
+    simp [isRO] at hsro
+    rw [hsro] at this; cases this
+  · exact (hB.2 s hs).2
+
+/-- the fan-out advertises itself as mutating exactly when it may hand the caller's own object to
+a mutating consumer -/
+theorem C06_fan_cap (caps : List Bool) :
+    fanCap caps = true ↔ ∃ d ∈ deliveries caps false, d.obj = .orig ∧ isMut caps d.consumer := by
+  constructor
+  · intro h
+    simp only [fanCap, Bool.and_eq_true, Bool.not_eq_true', List.isEmpty_iff] at h
+    obtain ⟨hm, hr⟩ := h
+    cases hmm : mutableIdx caps with
+    | nil => simp [hmm] at hm
+    | cons a rest =>
+      -- the last mutating consumer gets the original
+      have hL : lastGetsOrig caps false = true := by simp [lastGetsOrig, hr]
+      have key : ∀ (m : List Nat) (k : Nat), m ≠ [] → ∃ d ∈ mutDeliveries true m k, d.obj = .orig ∧ d.consumer ∈ m := by
+        intro m
+        induction m with
+        | nil => intro k h; exact absurd rfl h
+        | cons c rest ih =>
+          intro k _
+          cases rest with
+          | nil => exact ⟨⟨c, .orig⟩, by simp [mutDeliveries], rfl, by simp⟩
+          | cons c' rest' =>
+            obtain ⟨d, hd, ho, hc⟩ := ih (k + 1) (by simp)
+            exact ⟨d, by simp only [mutDeliveries, List.mem_cons]; exact Or.inr hd, ho, by simp only [List.mem_cons] at hc ⊢; exact Or.inr hc⟩
+      obtain ⟨d, hd, ho, hc⟩ := key (mutableIdx caps) 0 (by simp [hmm])
+      refine ⟨d, ?_, ho, (mem_mutableIdx caps _).1 hc⟩
+      simp only [deliveries, hL, List.mem_append]; exact Or.inl hd
+  · rintro ⟨d, hd, ho, hm⟩
+    simp only [deliveries, List.mem_append] at hd
+    rcases hd with hd | hd
+    · rcases mutDeliveries_obj _ _ _ d hd with ⟨_, hL⟩ | ⟨j, hj, _⟩
+      · simp only [lastGetsOrig, Bool.and_eq_true, List.isEmpty_iff] at hL
+        have hmem : d.consumer ∈ mutableIdx caps := (mem_mutableIdx caps _).2 hm
+        simp only [fanCap, Bool.and_eq_true, Bool.not_eq_true', List.isEmpty_iff, hL.1, and_true]
+        cases hmm : mutableIdx caps with
+        | nil => rw [hmm] at hmem; simp at hmem
+        | cons a b => simp
+      · rw [hj] at ho; cases ho
+    · simp only [roDeliveries, List.mem_map] at hd
+      obtain ⟨c, hc, rfl⟩ := hd
+      have := (mem_readonlyIdx caps c).1 hc
+      simp [isMut, this] at hm
+
+theorem idxWhere_nil_iff (b : Bool) (caps : List Bool) (s : Nat) : idxWhere b caps s = [] ↔ ∀ c ∈ caps, c ≠ b := by
+  induction caps generalizing s with
+  | nil => simp [idxWhere]
+  | cons c cs ih =>
+    by_cases hc : c = b
+    · simp [idxWhere, hc]
+    · simp [idxWhere, hc, ih]
+
+/-- the fan-out's capability does not depend on the order of its consumers (the graph hands them
+over in map-iteration order): it is "there is a consumer and all of them mutate" -/
+theorem C06_fanCap_all (caps : List Bool) : fanCap caps = (!caps.isEmpty && caps.all id) := by
+  have h1 := idxWhere_nil_iff true caps 0
+  have h2 := idxWhere_nil_iff false caps 0
+  simp only [fanCap, mutableIdx, readonlyIdx]
+  cases caps with
+  | nil => simp [idxWhere]
+  | cons c cs =>
+    rw [Bool.eq_iff_iff]
+    simp only [Bool.and_eq_true, Bool.not_eq_true', List.isEmpty_eq_false_iff, ne_eq, List.isEmpty_iff, h1, h2,
+      List.all_eq_true, id]
+    constructor
+    · rintro ⟨_, hall⟩
+      exact ⟨by simp, fun x hx => by have := hall x hx; cases x <;> simp_all⟩
+    · rintro ⟨_, hall⟩
+      refine ⟨?_, fun x hx => by simp [hall x hx]⟩
+      intro hno
+      have := hno c (by simp)
+      have := hall c (by simp)
+      simp_all
+
+theorem C06_fanCap_perm (a b : List Bool) (h : a.Perm b) : fanCap a = fanCap b := by
+  rw [C06_fanCap_all, C06_fanCap_all]
+  have h1 : a.isEmpty = b.isEmpty := by
+    cases a <;> cases b <;> simp_all
+  have h2 : a.all id = b.all id := by
+    rw [Bool.eq_iff_iff]; simp only [List.all_eq_true]; exact ⟨fun hh x hx => hh x (h.mem_iff.2 hx), fun hh x hx => hh x (h.mem_iff.1 hx)⟩
+  rw [h1, h2]
+
+/-- a pipeline advertises itself as mutating exactly when one of its processors mutates or its
+exporter stage may mutate the original payload -/
+theorem C06_pipeline_cap (procs exporters : List Bool) :
+    pipelineCap procs exporters = true ↔
+      (∃ p ∈ procs, p = true) ∨ ∃ d ∈ deliveries exporters false, d.obj = .orig ∧ isMut exporters d.consumer := by
+  simp only [pipelineCap, Bool.or_eq_true, C06_fan_cap, List.any_eq_true, id]
+  constructor
+  · rintro (h | h); exact Or.inr h; exact Or.inl h
+  · rintro (h | h); exact Or.inr h; exact Or.inl h
+
+/-- two-level isolation: a pipeline that does **not** advertise mutation has no mutating processor
+and its exporter stage hands the payload it received only to non-mutating exporters (every mutating
+exporter works on a clone) — so whoever feeds several pipelines may share one object among the
+non-advertising ones, and `C06_exclusive` gives each advertising pipeline its own copy -/
+theorem C06_two_level (procs exporters : List Bool) (inputRO : Bool) (h : pipelineCap procs exporters = false) :
+    (∀ p ∈ procs, p = false) ∧
+    ∀ d ∈ deliveries exporters inputRO, isMut exporters d.consumer → ∃ j, d.obj = .clone j := by
+  simp only [pipelineCap, Bool.or_eq_false_iff, List.any_eq_false, id] at h
+  obtain ⟨hf, hp⟩ := h
+  refine ⟨fun p hp' => by simpa using hp p hp', ?_⟩
+  intro d hd hm
+  -- fanCap = false and a mutating exporter exists ⇒ some non-mutating exporter exists ⇒ last does not get the original
+  have hmem : d.consumer ∈ mutableIdx exporters := (mem_mutableIdx _ _).2 hm
+  have hL : lastGetsOrig exporters inputRO = false := by
+    simp only [fanCap, Bool.and_eq_false_iff, Bool.not_eq_false', List.isEmpty_iff] at hf
+    rcases hf with hf | hf
+    · rw [hf] at hmem; simp at hmem
+    · simp [lastGetsOrig, hf]
+  simp only [deliveries, hL, List.mem_append] at hd
+  rcases hd with hd | hd
+  · exact mutDeliveries_false_clone _ _ d hd
+  · simp only [roDeliveries, List.mem_map] at hd
+    obtain ⟨c, hc, rfl⟩ := hd
+    have := (mem_readonlyIdx exporters c).1 hc
+    simp [isMut, this] at hm
+
+/-- a same-signal connector advertises mutation whenever it or any pipeline it feeds does (it may
+pass the object it received straight on) -/
+theorem C06_aggregate_cap (base : Bool) (nexts : List Bool) :
+    aggregateCap base nexts = true ↔ base = true ∨ ∃ n ∈ nexts, n = true := by
+  simp [aggregateCap]
+
+/-! ## non-vacuity -/
+
+example : deliveries [true, false, true, false] false =
+    [⟨0, .clone 0⟩, ⟨2, .clone 1⟩, ⟨1, .orig⟩, ⟨3, .orig⟩] := by decide
+example : deliveries [true, true] false = [⟨0, .clone 0⟩, ⟨1, .orig⟩] := by decide
+example : deliveries [true, true] true = [⟨0, .clone 0⟩, ⟨1, .clone 1⟩] := by decide
+example : (runFan [true, false, false] false 7 (fun c => if c = 0 then some 9 else none)).1.origRO = true := by decide
+example : isRO [true, false, false] 1 ∧ (readonlyIdx [true, false, false]).length > 1 := by simp [isRO]; decide
+
 end OtelVerif.C06
